@@ -369,8 +369,20 @@ func loadChunk(l *Lexer, recordLen uint64) error {
 		return fmt.Errorf("failed to read compression length: %w", err)
 	}
 
-	// read compression and records length into buffer
-	thisReadLength, err := io.ReadFull(l.reader, l.buf[:compressionLen+8])
+	// read compression and records length into buffer. The scratch buffer only fits short
+	// compression names: grow it when needed, but never beyond what the record can hold.
+	headerLen := uint64(compressionLen) + 8
+	if recordLen < 8+8+8+4+4+headerLen {
+		return fmt.Errorf("chunk compression length %d exceeds chunk record length %d", compressionLen, recordLen)
+	}
+	if headerLen > uint64(len(l.buf)) {
+		buf, err := makeSafe(headerLen)
+		if err != nil {
+			return fmt.Errorf("failed to allocate compression buffer: %w", err)
+		}
+		l.buf = buf
+	}
+	thisReadLength, err := io.ReadFull(l.reader, l.buf[:headerLen])
 	readLength += thisReadLength
 	if errors.Is(err, io.ErrUnexpectedEOF) || errors.Is(err, io.EOF) {
 		return &ErrTruncatedRecord{
